@@ -526,7 +526,7 @@ func (c *Ctx) ruleFreeLists(rule string) {
 					okVal, why = false, "returns a non-nil error: callers must wait, not fail"
 				}
 			}
-			for _, pv := range x.PossibleValues(r.Results[0]) {
+			for _, pv := range x.ValuesAt(r.Results[0], r) {
 				u, isU := pv.V.(*ssa.UnOp)
 				var ia *ssa.IndexAddr
 				if isU {
